@@ -89,7 +89,8 @@ def ref_apply(L, rec, mod, grad_mode=None, contiguous=False, flip_rg=False):
         if contiguous:
             x = x.contiguous().clone()
         leaf = x
-        if bool(rec["op"].get("requires_grad")) != bool(flip_rg):
+        if bool(rec["op"].get("requires_grad")) != bool(flip_rg) and (
+                x.is_floating_point() or x.is_complex()):
             x.requires_grad_(True)
             if rec["op"].get("nonleaf"):
                 x = leaf * 1.0
